@@ -1,7 +1,7 @@
 (* C10 — redshift-bin membership follows the closed-side rule everywhere.
-   Statements only; proofs are in Proofs/BinningP.v and Proofs/BinningEqP.v, models in Model/Binning.v and
-   Model/BinningEq.v. *)
-From Verif Require Import Prelude Binning BinningP BinningEq BinningEqP.
+   Statements only; proofs are in Proofs/BinningP.v, Proofs/BinningEqP.v and Proofs/BinningLookP.v, models in
+   Model/Binning.v, Model/BinningEq.v and Model/BinningLook.v. *)
+From Verif Require Import Prelude Binning BinningP BinningEq BinningEqP BinningLook BinningLookP.
 Open Scope Q_scope.
 
 (* np.digitize on strictly increasing edges, both values of `right`: b+1 iff member b,
@@ -510,4 +510,86 @@ Example C10_near_equal_concrete :
   good = [Some (kb, [(0%nat, 0); (1%nat, 4); (1%nat, 2)]); Some (kb, [(0%nat, 0); (0%nat, 0); (1%nat, 8)])] /\
   c10_cache_case true patches hist false kb e_typed pre good (Some [0; 4; 10]) (Some [[0; 0]; [4; 0]; [2; 8]]) = 0%nat /\
   c10_cache_case true patches hist false kb e_typed pre pre (Some [0; 4; 10]) (Some [[0; 0]; [6; 8]; [0; 0]]) = 151%nat.
+Proof. vm_compute. repeat split; reflexivity. Qed.
+
+(* ---------- calls that only LOOK, made between two measurements with the same configuration object ----------
+   (Model/BinningLook.v: a heap of arrays, array 0 = the edges of the configuration, accessors that hand out the stored
+   array / a view of it (alias) or a new array, in-place updates x += d versus new arrays x = x + d) *)
+
+(* copying accessors: whatever is done to what they hand out, by the caller or inside a library call, in place or not,
+   the configuration keeps the edges it was created with *)
+Theorem C10_look_copying_keeps_edges : forall edges ops,
+  forallb op_copying ops = true -> edges_after edges ops = edges.
+Proof. exact look_copying_keeps_edges. Qed.
+Print Assumptions C10_look_copying_keeps_edges.
+
+(* no in-place update (plot written as x = binning.edges + xoffset): aliasing accessors are harmless *)
+Theorem C10_look_nowrite_keeps_edges : forall edges ops,
+  forallb op_nowrite ops = true -> edges_after edges ops = edges.
+Proof. exact look_nowrite_keeps_edges. Qed.
+Print Assumptions C10_look_nowrite_keeps_edges.
+
+(* ... and every later measurement with the same configuration object follows the rule for the CREATED edges *)
+Theorem C10_look_safe_member : forall hasw cr edges ops objs,
+  forallb op_copying ops = true \/ forallb op_nowrite ops = true ->
+  increasing edges -> (2 <= length edges)%nat ->
+  edges_after edges ops = edges /\
+  (forall b, (b < nbins edges)%nat ->
+     fst (nth b (build_trees_fix hasw cr (edges_after edges ops) objs) dummy_tree) = spec_count cr edges objs b /\
+     snd (nth b (build_trees_fix hasw cr (edges_after edges ops) objs) dummy_tree) == spec_weight hasw cr edges objs b /\
+     nth b (hist_fix hasw cr (edges_after edges ops) objs) 0 == spec_weight hasw cr edges objs b) /\
+  (forall z b, member cr (edges_after edges ops) b z <-> member cr edges b z).
+Proof. exact look_safe_member. Qed.
+Print Assumptions C10_look_safe_member.
+
+(* the aliasing variant: the accessor hands out the stored array and the value is updated in place - by
+   `x = binning.edges; x += d` as well as inside plot(style=step, xoffset=d) written with `x += xoffset`.  For EVERY
+   binning, both closed sides and every positive shift the stored edges move, and there is a redshift that the created
+   edges put into the first bin and that the measurement made afterwards puts into no bin *)
+Theorem C10_look_aliasing_refuted : forall cr edges d,
+  increasing edges -> (2 <= length edges)%nat -> 0 < d ->
+  edges_after edges [LGet 0 AEdges true; LWrite 0 (WAdd d)] = map (fun x => x + d) edges /\
+  edges_after edges [LPlot 0 true true true d] = map (fun x => x + d) edges /\
+  exists z, member cr edges 0 z /\
+    forall b, ~ member cr (edges_after edges [LPlot 0 true true true d]) b z.
+Proof. exact look_aliasing_refuted. Qed.
+Print Assumptions C10_look_aliasing_refuted.
+
+(* the checker the harness evaluates on every history of read-only calls *)
+Theorem C10_look_case_sound : forall cr hasw edges ops patches rep_cr rep_edges trees hist meas,
+  c10_look_case cr hasw edges ops patches rep_cr rep_edges trees hist meas = 0%nat ->
+  increasing edges /\ (2 <= length edges)%nat /\ rep_cr = cr /\ qlist_eqb rep_edges edges = true /\
+  list_eqb (opt_eqb trees_eqb) trees (map (fun p => Some (spec_trees hasw cr edges p)) patches) = true /\
+  (forall h, hist = Some h -> qlist_eqb h (spec_hist hasw cr edges patches) = true) /\
+  (forall m, meas = Some m -> qmat_eqb m (spec_sum_weights hasw cr edges patches) = true).
+Proof. exact look_case_sound. Qed.
+Print Assumptions C10_look_case_sound.
+
+(* non-vacuity: edges 1/4, 1/2, 1, closed = left, objects on 1/4 and 1/2.  Safe histories leave the trees as the rule says;
+   plot(style=step, xoffset=1/16) in place on the aliasing accessor gives edges 5/16, 9/16, 17/16, drops the first object
+   and moves the second into the first bin; offsets of repeated calls add up; .right is a view (x *= 2); the checker
+   accepts the unchanged configuration with the right trees (0) and flags the moved one: edges (2), trees (4),
+   histogram (8), not even the what-if reading explains a change that no call of the history can produce (64) *)
+Example C10_look_concrete :
+  trees_eqb (spec_trees true false look_ex_edges look_ex_objs) [(1%nat, 1); (1%nat, 2)] = true /\
+  trees_eqb (look_ex_trees [LLook; LPlot 0 false true true (1 # 16); LGet 0 ALeft true; LFresh 0 (WMul 2)])
+            [(1%nat, 1); (1%nat, 2)] = true /\
+  trees_eqb (look_ex_trees [LPlot 0 true false true (1 # 16)]) [(1%nat, 1); (1%nat, 2)] = true /\
+  trees_eqb (look_ex_trees [LPlot 0 true true false (1 # 16)]) [(1%nat, 1); (1%nat, 2)] = true /\
+  trees_eqb (look_ex_trees [LGet 0 AEdges false; LWrite 0 (WAdd (1 # 16)); LWrite 0 WSort; LWrite 0 (WSet 0 5)])
+            [(1%nat, 1); (1%nat, 2)] = true /\
+  qlist_eqb (edges_after look_ex_edges [LPlot 0 true true true (1 # 16)]) [5 # 16; 9 # 16; 17 # 16] = true /\
+  trees_eqb (look_ex_trees [LPlot 0 true true true (1 # 16)]) [(1%nat, 2); (0%nat, 0)] = true /\
+  qlist_eqb (edges_after look_ex_edges [LPlot 0 true true true (1 # 16); LLook; LPlot 0 true true true (1 # 16)])
+            [3 # 8; 5 # 8; 9 # 8] = true /\
+  qlist_eqb (edges_after look_ex_edges [LGet 0 ARight true; LWrite 0 (WMul 2)]) [1 # 4; 1; 2] = true /\
+  trees_eqb (look_ex_trees [LGet 0 ARight true; LWrite 0 (WMul 2)]) [(2%nat, 3); (0%nat, 0)] = true /\
+  c10_look_case false true look_ex_edges [LPlot 0 true true true (1 # 16)] [look_ex_objs]
+                false look_ex_edges [Some [(1%nat, 1); (1%nat, 2)]] (Some [1; 2]) (Some [[1]; [2]]) = 64%nat /\
+  c10_look_case false true look_ex_edges [LPlot 0 true false true (1 # 16)] [look_ex_objs]
+                false look_ex_edges [Some [(1%nat, 1); (1%nat, 2)]] (Some [1; 2]) (Some [[1]; [2]]) = 0%nat /\
+  c10_look_case false true look_ex_edges [LPlot 0 true true true (1 # 16)] [look_ex_objs]
+                false [5 # 16; 9 # 16; 17 # 16] [Some [(1%nat, 2); (0%nat, 0)]] (Some [2; 0]) None = 14%nat /\
+  c10_look_case false true look_ex_edges [LLook] [look_ex_objs]
+                false [5 # 16; 9 # 16; 17 # 16] [Some [(1%nat, 2); (0%nat, 0)]] (Some [2; 0]) None = 78%nat.
 Proof. vm_compute. repeat split; reflexivity. Qed.
